@@ -248,7 +248,7 @@ fn model_apply<T: Elem>(m: &mut Vec<T>, op: &Op<T>) -> String {
                 m[at(*i)] = v.clone();
                 "Ok".into()
             } else {
-                format!("Err({})", i - len + 1)
+                format!("Err({})", (i - len).saturating_add(1))
             }
         }
         Remove(i) => {
@@ -453,7 +453,8 @@ fn run_sequence<T: Elem>(ops: &[Op<T>]) -> CaseResult {
 }
 
 fn op_strategy<T: Elem + 'static>(val: BoxedStrategy<T>) -> BoxedStrategy<Op<T>> {
-    let pos = prop_oneof![4 => 0usize..6, 1 => 0usize..40].boxed();
+    // positions inside, just outside and absurdly far outside the stack
+    let pos = prop_oneof![16 => 0usize..6, 4 => 0usize..40, 1 => prop::sample::select(vec![usize::MAX, usize::MAX - 1, usize::MAX / 2 + 1, 1usize << 32])].boxed();
     let vs = prop::collection::vec(val.clone(), 0..4);
     prop_oneof![
         6 => val.clone().prop_map(Push),
@@ -567,6 +568,96 @@ fn exhaustive(ctx: &Ctx, depth: usize) -> SubReport {
     rep
 }
 
+/// Deep stacks: the container is documented without a capacity. Fill to `n` items through each
+/// of the three ways of adding (push, push_front, push_vec in chunks), compare size, both ends,
+/// probes in the middle and the full contents with the model, then drain by pop / pop_front /
+/// pop_vec and compare again.
+fn deep(ctx: &Ctx) -> SubReport {
+    let sizes: Vec<usize> = ctx.tier.pick(vec![999, 1000, 1001, 4097, 10_000, 10_001, 25_000], vec![999, 1000, 1001, 4097, 10_000, 10_001, 25_000, 65_536, 65_537, 300_000]);
+    let work: Vec<(usize, u8)> = sizes.iter().flat_map(|n| (0u8..3).map(move |how| (*n, how))).collect();
+    par_map(ctx, "deep-stacks", work.len() as u64, |wi, rep| {
+        let (n, how) = work[wi as usize];
+        let mut s: PushStack<i32> = PushStack::new();
+        let mut m: Vec<i32> = vec![]; // bottom .. top
+        let filled_by = ["push", "push_front", "push_vec"][how as usize];
+        let case = json!({"items": n, "filled_by": filled_by});
+        let r = guarded(|| {
+            match how {
+                0 => {
+                    for i in 0..n as i32 {
+                        s.push(i);
+                        m.push(i);
+                    }
+                }
+                1 => {
+                    for i in 0..n as i32 {
+                        s.push_front(i);
+                        m.insert(0, i);
+                        if m.len() > 30_000 {
+                            break; // insert(0) on the model is quadratic
+                        }
+                    }
+                }
+                _ => {
+                    let mut i = 0i32;
+                    while m.len() < n {
+                        let k = (n - m.len()).min(777);
+                        let chunk: Vec<i32> = (i..i + k as i32).collect();
+                        s.push_vec(chunk.clone());
+                        m.extend(chunk);
+                        i += k as i32;
+                    }
+                }
+            }
+            let mut problems = vec![];
+            if s.size() != m.len() {
+                problems.push(format!("size() = {} after adding {} items", s.size(), m.len()));
+            }
+            let got: Vec<i32> = (0..s.size()).rev().filter_map(|p| s.get(p).cloned()).collect();
+            if got != m {
+                let first = got.iter().zip(m.iter()).position(|(a, b)| a != b).unwrap_or(got.len().min(m.len()));
+                problems.push(format!("contents differ from the model from position {} above the bottom (lengths {} / {})", first, got.len(), m.len()));
+            }
+            for p in [0usize, 1, m.len() / 2, m.len().saturating_sub(1), m.len()] {
+                let want = if p < m.len() { Some(m[m.len() - 1 - p]) } else { None };
+                if s.copy(p) != want {
+                    problems.push(format!("copy({}) = {:?}, model {:?}", p, s.copy(p), want));
+                }
+            }
+            // drain
+            let half = m.len() / 2;
+            let popped = s.pop_vec(half);
+            let want: Option<Vec<i32>> = if half <= m.len() { Some(m.split_off(m.len() - half)) } else { None };
+            if popped != want {
+                problems.push(format!("pop_vec({}) differs from the model", half));
+            }
+            let mut k = 0;
+            while let Some(x) = s.pop() {
+                if m.pop() != Some(x) {
+                    problems.push(format!("pop #{} returned {} but the model disagrees", k, x));
+                    break;
+                }
+                k += 1;
+            }
+            if !m.is_empty() {
+                problems.push(format!("stack empty but the model still holds {} items", m.len()));
+            }
+            problems
+        });
+        rep.evaluations += 1;
+        match r {
+            Err((l, msg)) => rep.fail(ctx, Fail::new("C16/deep/panic", format!("panicked at {}: {}", l, msg)), case),
+            Ok(p) if !p.is_empty() => rep.fail(ctx, Fail::new("C16/deep/contents", format!("{} items filled by {}: {}", n, ["push", "push_front", "push_vec"][how as usize], p.join("; "))), case),
+            Ok(_) => {
+                rep.nontrivial.insert((n as u64) << 2 | how as u64);
+                if n == 1000 {
+                    rep.sample(case);
+                }
+            }
+        }
+    })
+}
+
 fn case_json<T: Elem>(elem: &str, ops: &Vec<Op<T>>) -> Value {
     json!({"elem": elem, "ops": ops.iter().map(|o| o.to_json()).collect::<Vec<_>>()})
 }
@@ -578,6 +669,7 @@ pub fn run(ctx: &Ctx) -> PropReport {
     );
     rep.assumptions.push("raw swap(i,j) is excluded: documented to take vector indices, not stack positions".into());
     rep.push(exhaustive(ctx, ctx.tier.pick(4, 5)));
+    rep.push(deep(ctx));
     let n = ctx.tier.pick(40_000, 400_000);
     let maxlen = ctx.tier.pick(120usize, 200usize);
     rep.push(run_sharded(
@@ -594,7 +686,13 @@ pub fn run(ctx: &Ctx) -> PropReport {
         n / 2,
         || {
             let kinds = gen::AtomKinds { vectors: true, ..gen::AtomKinds::all(vec!["NOOP".into(), "INTEGER.+".into(), "CODE.DO".into()]) };
-            prop::collection::vec(op_strategy::<ItemSpec>(gen::tree(&kinds, 3, 8, 3)), 0..maxlen / 2)
+            // items that print alike although they are of different kinds (the equality probe
+            // equal_at is documented as a comparison of printed forms)
+            let twins = prop::sample::select(vec![
+                ItemSpec::name("NOOP"), ItemSpec::instr("NOOP"), ItemSpec::name("1"), ItemSpec::Int(1), ItemSpec::name("TRUE"), ItemSpec::Bool(true), ItemSpec::Float(f32::NAN), ItemSpec::name("NaN"),
+                ItemSpec::List(vec![ItemSpec::name("CODE.DO")]), ItemSpec::List(vec![ItemSpec::instr("CODE.DO")]),
+            ]);
+            prop::collection::vec(op_strategy::<ItemSpec>(prop_oneof![6 => gen::tree(&kinds, 3, 8, 3), 2 => twins].boxed()), 0..maxlen / 2)
         },
         |ops: &Vec<Op<ItemSpec>>| run_sequence(ops),
         |ops| case_json("item", ops),
@@ -602,7 +700,14 @@ pub fn run(ctx: &Ctx) -> PropReport {
     rep
 }
 
-pub fn replay(_ctx: &Ctx, _sub: &str, case: &Value) -> Result<(), Fail> {
+pub fn replay(ctx: &Ctx, sub: &str, case: &Value) -> Result<(), Fail> {
+    if sub == "deep-stacks" {
+        let r = deep(ctx);
+        return match r.violations.first() {
+            Some(v) => Err(Fail::new(v.signature.clone(), v.detail.clone())),
+            None => Ok(()),
+        };
+    }
     let bad = || Fail::new("replay-format", "cannot decode C16 case");
     let elem = case.get("elem").and_then(|x| x.as_str()).ok_or_else(bad)?;
     let ops = case.get("ops").and_then(|x| x.as_array()).ok_or_else(bad)?;
